@@ -73,9 +73,13 @@ func submgrCells(parked bool) []cellSpec {
 	return out
 }
 
-func genSubMgr(s src, c cellSpec) *tcase {
+func genSubMgr(s src, c cellSpec, base *params) *tcase {
 	tc := &tcase{Kind: c.Kind, Path: c.Path, Prefix: c.Prefix, Second: c.Second, ParkAt: c.ParkAt}
-	genCommon(s, &tc.P)
+	if base != nil {
+		tc.P = *base
+	} else {
+		genCommon(s, &tc.P)
+	}
 	tc.P.RadiusAuth = false
 	tc.P.Radius = true // accounting goes through the AccountingManager, which requires a client
 	tc.P.IdleS = pick(s, "idle", []int{60, 300})
